@@ -180,14 +180,18 @@ DEGREE = {'w_nx': 1, 'w_ig': 1, 'cable': 1, 'd2r': 1, 'geo': 1, 'geo_prop': 1, '
 
 
 def close(a, b, rel=1e-9):
+    """element-wise |a - b| <= rel * max(|b|, largest |b| of the array): relative to the scale of the data (physical
+    quantities in metres are tiny: no absolute floor)"""
     a, b = np.asarray(a, dtype=float), np.asarray(b, dtype=float)
     if a.shape != b.shape:
         return False
     fin = np.isfinite(b)
     if not np.array_equal(np.isfinite(a), fin):
         return False
-    return bool(np.all(np.abs(a[fin] - b[fin]) <= rel * np.maximum(1e-300, np.abs(b[fin])) + 0.0)) or \
-        bool(np.all(np.abs(a[fin] - b[fin]) <= rel * np.maximum(1.0, np.abs(b[fin])) * 1e-3))
+    if not fin.any():
+        return True
+    scale = float(np.max(np.abs(b[fin])))
+    return bool(np.all(np.abs(a[fin] - b[fin]) <= rel * np.maximum(np.abs(b[fin]), scale)))
 
 
 def unit_metres(x):
@@ -921,3 +925,342 @@ def gen_strzero(r, i):
     m = Fraction(m)
     return {'neuron': h.tree_desc(r), 'fn': ZERO_FNS[(i // len(ZERO_LENGTHS)) % len(ZERO_FNS)], 'units': u,
             'length': [s, [m.numerator, m.denominator]], 'backend': B.BACKENDS[i % 3]}
+
+
+# ---------------------------------------------------------------------------------------------------------------
+# config.add_units = True: unit-carrying properties (cable_length, surface_area, volume) as physical quantities
+# ---------------------------------------------------------------------------------------------------------------
+ADDU_PROPS = {'T': ['cable_length', 'surface_area', 'volume'], 'M': ['volume'], 'V': ['volume']}
+ADDU_UNITS = [['str', '1 nm'], ['str', '8 nm'], ['str', '0.5 um'], ['str', 'um'], ['str', '16 nanometers'], ['str', '2 mm'],
+              ['tuple', [['str', '4 nm'], ['str', '4 nm'], ['str', '40 nm']]], ['tuple', [['str', '4 nm'], ['str', '8 nm'], ['str', '40 nm']]],
+              None, ['num', 2]]
+
+
+def _with_add_units(flag, f):
+    old = navis.config.add_units
+    navis.config.add_units = flag
+    try:
+        return f()
+    finally:
+        navis.config.add_units = old
+
+
+def _base_mag3(q):
+    """pint quantity → ([x, y, z] magnitudes in base units as Fractions, {dimension: power})"""
+    b = q.to_base_units()
+    m = np.atleast_1d(np.asarray(b.magnitude, dtype=float)).ravel()
+    if len(m) == 1:
+        m = np.repeat(m, 3)
+    return [Fraction(float(v)) for v in m], dict(b.dimensionality)
+
+
+def case_addunits(ctx, case):
+    h = _h()
+    d = case['neuron']
+    kind = d['k']
+    with B.backend(case.get('backend', 'fastcore')):
+        x = h.build(d)
+        variants = [('x', x)]
+        for v in case['variants']:
+            try:
+                if v[0] == 'mul':
+                    variants.append((f'x * {v[1]}', x * v[1]))
+                elif v[0] == 'div':
+                    variants.append((f'x / {v[1]}', x / v[1]))
+                elif v[0] == 'imul':
+                    y = x.copy(); y *= v[1]
+                    variants.append((f'x *= {v[1]}', y))
+                elif v[0] == 'convert' and not x.units.dimensionless and (x.is_isometric or kind != 'V'):
+                    variants.append((f"x.convert_units('{v[1]}')", x.convert_units(v[1])))
+            except Exception as e:
+                ctx.count('addunits', f'variant-raises:{type(e).__name__}')
+        ref = {}
+        for vname, y in variants:
+            for prop in ADDU_PROPS[kind]:
+                try:
+                    raw = _with_add_units(False, lambda: getattr(y, prop))
+                except Exception as e:
+                    ctx.count('addunits', f'{h.CLS[kind]}.{prop}/raw-raises:{type(e).__name__}')
+                    continue
+                try:
+                    q = _with_add_units(True, lambda: getattr(y, prop))
+                except Exception as e:
+                    ctx.oracle(False, f'{h.CLS[kind]}.{prop} with config.add_units=True raised {type(e).__name__}: {e} on {vname} '
+                                      f'(units {y.units!r})', case)
+                    continue
+                ctx.count('addunits', f"{h.CLS[kind]}.{prop}/{'dimensionless' if y.units.dimensionless else ('iso' if y.is_isometric else 'per-axis')}")
+                what = f'{h.CLS[kind]}.{prop} of {vname} (units {y.units!r}) with config.add_units=True'
+                if kind == 'V':
+                    _voxel_volume(ctx, case, h, y, raw, q, what)
+                    continue
+                rawf = float(raw)
+                if y.units.dimensionless:
+                    ctx.oracle(not isinstance(q, pint.Quantity) and float(q) == rawf,
+                               f'{what} = {q!r}: a neuron without length units must report the plain value {rawf}', case)
+                    continue
+                if not isinstance(q, pint.Quantity):
+                    ctx.oracle(False, f'{what} = {q!r}: not a quantity', case)
+                    continue
+                mags, dim = _base_mag3(q)
+                tol = 18 if case.get('backend', 'fastcore') == 'fastcore' else 30
+                ans = h.kv(ctx.ask(f"c15.addunits {h.CLS[kind]} {prop} {tol} | {h.units_wire(y)} | {h.rs(rawf)} | {h.v3s(mags)}"))
+                power = ans.get('power')
+                ctx.corr(True, power not in (None, 'none'), f'{h.CLS[kind]}.{prop}: no @add_units site for it in the generated table', case)
+                if power in (None, 'none'):
+                    continue
+                power = int(power)
+                ctx.oracle(dim == {'[length]': power}, f'{what} = {q!r}: dimension {dim}, expected length^{power}', case)
+                ctx.oracle(ans.get('ok') == '1', f'{what} = {q!r} is not the raw value {rawf} × units^{power} '
+                                                 f'(Lean addUnitsB; expected {ans.get("model")} in base units, got {h.v3s(mags)})', case)
+                # invariance under scaling / conversion (scalar factors, isometric units)
+                if y.is_isometric and x.is_isometric:
+                    if vname == 'x':
+                        ref[prop] = float(mags[0])
+                    elif prop in ref:
+                        ctx.oracle(close([float(mags[0])], [ref[prop]], rel=1e-5),
+                                   f'{what} = {q!r} ({float(mags[0])} in base units) is not the physical quantity reported for x '
+                                   f'({ref[prop]}): not invariant under scaling / conversion', case)
+
+
+def _voxel_volume(ctx, case, h, y, raw, q, what):
+    """VoxelNeuron.volume: number of voxels × voxel volume, a quantity of dimension length^3 either way"""
+    u = y.units_xyz
+    e = h.unit_exp(u.units)
+    if e == 'D':
+        return
+    vx = [float(m) * 10.0 ** e for m in u.magnitude]
+    want = float(y.nnz) * vx[0] * vx[1] * vx[2]
+    aniso_y = abs(vx[1] - vx[2]) > 1e-30
+    for label, val, sig_extra in (('config.add_units=False', raw, None), ('config.add_units=True', q, 'units-applied-twice')):
+        if not isinstance(val, pint.Quantity):
+            ctx.oracle(False, f'{what} [{label}] = {val!r}: not a quantity', case)
+            continue
+        mags, dim = _base_mag3(val)
+        sig = None
+        if dim != {'[length]': 3} and label.endswith('True'):
+            sig = 'VoxelNeuron.volume/add_units/units-applied-twice'
+        elif aniso_y:
+            sig = 'VoxelNeuron.volume/per-axis-units/y-axis-ignored'
+        ok = dim == {'[length]': 3} and close([float(mags[0])], [want], rel=1e-6)
+        ctx.oracle(ok, f'VoxelNeuron.volume [{label}] = {val!r} (units {y.units!r}, {y.nnz} voxels): expected {want} m^3 '
+                       f'(nnz × x × y × z voxel size), got {float(mags[0])} with dimension {dim}', case, signature=sig)
+
+
+def gen_addunits(r, i):
+    h = _h()
+    kind = 'TTMV'[i % 4]
+    u = ADDU_UNITS[(i // 4) % len(ADDU_UNITS)]
+    if kind == 'T':
+        nd = h.tree_desc(r, 4, 9)
+        nd['units'] = u
+        nd['radii'] = [r.choice([0.5, 0.25, 1.0]) for _ in nd['rows']]
+    elif kind == 'M':
+        nd = h.gen_neuron(r, 'M', units=u)
+        s = [r.choice([1, 2, 4]) for _ in range(3)]
+        nd['verts'] = [[v[j] * s[j] for j in range(3)] for v in h.CUBE_V]
+        nd['faces'] = h.CUBE_F
+    else:
+        nd = h.gen_neuron(r, 'V', units=u)
+    ks = r.sample([2, 0.5, 8, 125, 0.125, 1000, 4], 2)
+    return {'neuron': nd, 'variants': [['mul', ks[0]], ['div', ks[1]], ['imul', ks[0]], ['convert', r.choice(['um', 'nm', 'mm'])]],
+            'backend': B.BACKENDS[(i // 4) % 3]}
+
+
+# ---------------------------------------------------------------------------------------------------------------
+# metadata sweep with an option dimension: every non-default bool / Literal / None option of the signature (one at a
+# time) plus hand-listed value sets, so that early-return and alternative branches of the operations are reached
+# ---------------------------------------------------------------------------------------------------------------
+import inspect, typing
+
+OPT_SKIP = {'inplace', 'parallel', 'n_cores', 'progress', 'verbose', 'backend', 'validate', 'make_using', 'mask', 'map_columns',
+            'preserve_nodes', 'n_rays'}
+
+
+def _literals(ann):
+    out = []
+    if typing.get_origin(ann) is typing.Literal:
+        out += list(typing.get_args(ann))
+    for a in typing.get_args(ann) or ():
+        if typing.get_origin(a) is typing.Literal:
+            out += list(typing.get_args(a))
+    return [v for v in out if isinstance(v, (str, int, bool, type(None)))]
+
+
+def auto_options(fn, fixed):
+    """one-at-a-time variants from the signature: flipped bools, other Literal members"""
+    out = []
+    try:
+        sig = inspect.signature(fn)
+    except (TypeError, ValueError):
+        return out
+    for name, p in list(sig.parameters.items())[1:]:
+        if name in OPT_SKIP or name in fixed or p.default is inspect._empty or p.kind in (p.VAR_KEYWORD, p.VAR_POSITIONAL):
+            continue
+        if isinstance(p.default, bool):
+            out.append({name: not p.default})
+        else:
+            for v in _literals(p.annotation):
+                if v != p.default:
+                    out.append({name: v})
+    return out
+
+
+def _frag(x):
+    return navis.subset_neuron(x, x.nodes.node_id.values[::2])
+
+
+# name -> (function whose signature is read, call(x, **opts), names fixed by the call, extra option sets, cross product?)
+def _opt_table():
+    h = _h()
+    I = h._interior
+    T = {
+        'make_dotprops': (navis.make_dotprops, lambda x, **o: navis.make_dotprops(x, **o), (),
+                          [{'k': k, 'resample': rs_} for k in (20, 5, 0, None) for rs_ in (False, 2, 'USTR:2')], 'construct'),
+        'make_dotprops(NeuronList)': (navis.make_dotprops, lambda x, **o: navis.make_dotprops(navis.NeuronList([x, x.copy()]), **o), (),
+                                      [{'k': 0}, {'k': None, 'resample': 2}, {'k': 5}], 'construct'),
+        'prune_twigs': (navis.prune_twigs, lambda x, **o: navis.prune_twigs(x, **{'size': 5, **o}), ('size',),
+                        [{'recursive': True}, {'recursive': 2}, {'size': 'USTR:5'}, {'size': 'USTR:5', 'exact': True}], 'oncopy'),
+        'prune_by_strahler': (navis.prune_by_strahler, lambda x, **o: navis.prune_by_strahler(x, **{'to_prune': 1, **o}), ('to_prune',),
+                              [{'to_prune': [1]}, {'to_prune': -1}], 'oncopy'),
+        'prune_at_depth': (navis.prune_at_depth, lambda x, **o: navis.prune_at_depth(x, **{'depth': 10, **o}), ('depth',),
+                           [{'depth': 'USTR:10'}, {'depth': 0}], 'oncopy'),
+        'cut_skeleton': (navis.cut_skeleton, lambda x, **o: navis.cut_skeleton(x, I(x), **o), ('where',), [], 'oncopy'),
+        'subset_neuron': (navis.subset_neuron, lambda x, **o: navis.subset_neuron(x, x.nodes.node_id.values[: max(1, x.n_nodes // 2)], **o),
+                          ('subset',), [], 'oncopy'),
+        'heal_skeleton': (navis.heal_skeleton, lambda x, **o: navis.heal_skeleton(_frag(x), **o), (),
+                          [{'max_dist': 5}, {'max_dist': 'USTR:5'}, {'min_size': 2}, {'drop_disc': True}], 'oncopy'),
+        'stitch_skeletons': (navis.stitch_skeletons, lambda x, **o: navis.stitch_skeletons(*navis.cut_skeleton(x, I(x)), **o), (),
+                             [{'max_dist': 1000}], 'oncopy'),
+        'resample_skeleton': (navis.resample_skeleton, lambda x, **o: navis.resample_skeleton(x, **{'resample_to': 2, **o}), ('resample_to',),
+                              [{'method': 'quadratic'}, {'method': 'cubic'}, {'resample_to': 'USTR:2'}], 'oncopy'),
+        'downsample_neuron': (navis.downsample_neuron, lambda x, **o: navis.downsample_neuron(x, **{'downsampling_factor': 2, **o}),
+                              ('downsampling_factor',), [{'downsampling_factor': float('inf')}, {'downsampling_factor': 3}], 'oncopy'),
+        'longest_neurite': (navis.longest_neurite, lambda x, **o: navis.longest_neurite(x, **o), (), [{'n': 2}, {'n': 2, 'from_root': False}], 'oncopy'),
+        'drop_fluff': (navis.drop_fluff, lambda x, **o: navis.drop_fluff(_frag(x), **o), (), [{'keep_size': 2}, {'n_largest': 2}], 'oncopy'),
+        'despike_skeleton': (navis.despike_skeleton, lambda x, **o: navis.despike_skeleton(x, **o), (), [{'sigma': 1}, {'max_spike_length': 2}], 'oncopy'),
+        'smooth_skeleton': (navis.smooth_skeleton, lambda x, **o: navis.smooth_skeleton(x, **o), (), [{'window': 2}, {'to_smooth': ['radius']}], 'oncopy'),
+        'split_into_fragments': (navis.split_into_fragments, lambda x, **o: navis.split_into_fragments(x, **o), (),
+                                 [{'n': 3}, {'min_size': 1}], 'oncopy'),
+        'cell_body_fiber': (navis.cell_body_fiber, lambda x, **o: navis.cell_body_fiber(h._with_soma(x), **o), (), [], 'oncopy'),
+        'in_volume': (navis.in_volume, lambda x, **o: navis.in_volume(x, h._half_box(x), **{'inplace': False, **o}), ('volume',), [], 'oncopy'),
+        'reroot_skeleton': (navis.reroot_skeleton, lambda x, **o: navis.reroot_skeleton(x, I(x), **o), ('new_root',), [], 'oncopy'),
+    }
+    M = {
+        'make_dotprops': (navis.make_dotprops, lambda x, **o: navis.make_dotprops(x, **o), (),
+                          [{'k': k, 'resample': rs_} for k in (20, 5, 3) for rs_ in (False, 0.5)], 'construct'),
+        'subset_neuron': (navis.subset_neuron, lambda x, **o: navis.subset_neuron(x, [0, 1, 2], **o), ('subset',), [], 'oncopy'),
+        'downsample_neuron': (navis.downsample_neuron, lambda x, **o: navis.downsample_neuron(x, **{'downsampling_factor': 2, **o}),
+                              ('downsampling_factor',), [], 'oncopy'),
+    }
+    D = {
+        'make_dotprops': (navis.make_dotprops, lambda x, **o: navis.make_dotprops(x, **o), (),
+                          [{'k': k, 'resample': rs_} for k in (20, 5, 2) for rs_ in (False, 0.5)], 'construct'),
+        'subset_neuron': (navis.subset_neuron, lambda x, **o: navis.subset_neuron(x, list(range(max(1, len(x.points) // 2))), **o),
+                          ('subset',), [], 'oncopy'),
+        'downsample_neuron': (navis.downsample_neuron, lambda x, **o: navis.downsample_neuron(x, **{'downsampling_factor': 2, **o}),
+                              ('downsampling_factor',), [{'downsampling_factor': 3}], 'oncopy'),
+    }
+    V = {
+        'make_dotprops': (navis.make_dotprops, lambda x, **o: navis.make_dotprops(x, **o), (),
+                          [{'k': k, 'threshold': t} for k in (5, 2) for t in (None, 1)], 'voxel-construct'),
+    }
+    return {'T': T, 'M': M, 'D': D, 'V': V}
+
+
+_OPT = None
+
+
+def opt_table():
+    global _OPT
+    if _OPT is None:
+        _OPT = _opt_table()
+    return _OPT
+
+
+def opt_variants(kind, name):
+    sigfn, _, fixed, extras, _ = opt_table()[kind][name]
+    out, seen = [], set()
+    for o in [{}] + auto_options(sigfn, fixed) + list(extras):
+        key = repr(sorted(o.items(), key=lambda kv: kv[0]))
+        if key not in seen:
+            seen.add(key)
+            out.append(o)
+    return out
+
+
+def _result_neurons(y):
+    if isinstance(y, navis.BaseNeuron):
+        return [y]
+    if isinstance(y, (navis.NeuronList, list, tuple)):
+        return [n for n in y if isinstance(n, navis.BaseNeuron)]
+    return []
+
+
+def case_optsweep(ctx, case):
+    h = _h()
+    d, name, opts = case['neuron'], case['op'], dict(case['opts'])
+    kind = d['k']
+    ent = opt_table()[kind].get(name)
+    if ent is None:
+        return
+    _, call, _, _, cls = ent
+    x = h.build(d)
+    # 'USTR:<n>': the length n × (unit of the neuron) spelled as a string (a plain number when the neuron has none)
+    for k_, v in list(opts.items()):
+        if isinstance(v, str) and v.startswith('USTR:'):
+            n_ = float(v[5:])
+            if x.units.dimensionless or not x.is_isometric:
+                opts[k_] = n_
+            else:
+                um = Fraction(float(x.units_xyz.magnitude[0])).limit_denominator(10 ** 9) * Fraction(10) ** h.unit_exp(x.units_xyz.units)
+                cands = h.fmt_len(Fraction(n_).limit_denominator(1000) * um)
+                opts[k_] = cands[0][0] if cands else n_
+    label = f"{name}({', '.join(f'{k_}={v!r}' for k_, v in opts.items())})"
+    before, bw = h.md(x), h.md_wire(x)
+    try:
+        res = _result_neurons(call(x, **opts))
+    except Exception as e:
+        ctx.count('optsweep_errors', f'{h.CLS[kind]}/{label}/{type(e).__name__}'[:110])
+        return
+    ctx.count('optsweep', f'{h.CLS[kind]}/{name}/{",".join(sorted(case["opts"])) or "defaults"}')
+    ctx.corr(bw, h.md_wire(x), f'{h.CLS[kind]} {label}: metadata of the input changed', case)
+    if not res:
+        ctx.count('optsweep', 'no-neuron-result')
+        return
+    if cls in ('oncopy', 'construct'):
+        model = ctx.ask(f'c15.meta {cls} | {h.wire(x, kind)}')
+    for y in res:
+        after = h.md(y)
+        if cls != 'voxel-construct':
+            # VoxelNeuron → Dotprops legitimately re-expresses the unit (points are scaled by the voxel size): name / id only
+            lost = after[:2] == ((1, 1, 1), 'D') and after[:2] != before[:2]
+            ctx.oracle(after[:2] == before[:2], f'{h.CLS[kind]} {label}: units {x.units!r} -> {y.units!r}', case,
+                       signature=None)
+            if cls in ('oncopy', 'construct') and model != 'ERR':
+                mu = model.split(';')[0]
+                ctx.corr('kept' if after[:2] == before[:2] else ('dimensionless-1' if lost else 'other'),
+                         'kept' if mu == h.units_wire(x) else ('dimensionless-1' if mu == '1,1,1@D' else 'other'),
+                         f'{h.CLS[kind]} {label}: units flow differs from the model class {cls!r}: after={h.md_wire(y)} model={model}', case)
+        ctx.oracle(after[2] == before[2], f'{h.CLS[kind]} {label}: name {before[2]!r} -> {after[2]!r}', case)
+        ctx.oracle(after[3] == before[3], f'{h.CLS[kind]} {label}: id {before[3]!r} -> {after[3]!r}', case)
+
+
+def gen_optsweep(r, rep):
+    """every (type, operation, option variant) once per repetition; units / neuron vary with the repetition"""
+    h = _h()
+    for kind in h.KINDS:
+        for name in opt_table()[kind]:
+            for j, o in enumerate(opt_variants(kind, name)):
+                u = h.SWEEP_UNITS[(rep + j) % len(h.SWEEP_UNITS)]
+                if kind == 'T':
+                    nd = dict(h.tree_desc(r, 8, 12), units=u, name=r.choice(['skel', 'n_1']), id=r.choice([5, 2 ** 33]))
+                    nd['conns'] = [[1.0, 2.0, 3.0]]
+                else:
+                    nd = h.gen_neuron(r, kind, units=u)
+                    if kind == 'D':
+                        nd['points'] = [[h.dy(r), h.dy(r), h.dy(r)] for _ in range(8)]
+                    if kind == 'M':
+                        nd['verts'] = [[float(c) for c in v] for v in h.CUBE_V]
+                        nd['faces'] = h.CUBE_F
+                yield {'neuron': nd, 'op': name, 'opts': {k_: (None if isinstance(v, float) and v == float('inf') else v) for k_, v in o.items()}
+                       if not any(isinstance(v, float) and v == float('inf') for v in o.values()) else {k_: 1e9 for k_ in o}}
